@@ -22,7 +22,19 @@ type C05Case struct {
 
 var c05Counts = map[string]int{"quick": 60_000, "thorough": 1_500_000}
 
+// c05BigEvery: one case out of c05BigEvery is a large planted instance judged with the counting DPLL.
+const c05BigEvery = 40
+
 func c05Gen(r *gen.Rng, tier string, idx int) interface{} {
+	if idx%c05BigEvery == c05BigEvery-1 {
+		// large planted 3-SAT: hard enough for LBD restarts and clause-database reductions to happen while
+		// models are enumerated, constrained enough for the model set to stay small
+		n := r.Range(120, 220)
+		m := n * r.Range(620, 760) / 100
+		c := &C05Case{Front: []string{"slicenb", "dimacs"}[r.Intn(2)], Big: true, Limit: []int{0, 0, 50}[r.Intn(3)]}
+		c.P = ref.CNFToProblem(gen.Planted3SAT(r, n, m), n)
+		return c
+	}
 	c := &C05Case{Front: []string{"slicenb", "slicenb", "dimacs", "card", "pb"}[r.Intn(5)]}
 	c.Limit = []int{0, 0, 0, 3}[r.Intn(4)]
 	switch c.Front {
@@ -106,8 +118,116 @@ func expectedModels(p *ref.Problem, nb, n int) (models []uint32, free bool) {
 	return models, free
 }
 
+// c05RunBig judges CountModels and Enumerate on a large instance: the reference is the counting DPLL of
+// internal/ref; every delivered assignment must satisfy every clause and be delivered once.
+func c05RunBig(c *C05Case, rec *Rec) {
+	front := map[string]string{"slicenb": "ParseSliceNb", "dimacs": "ParseCNF"}[c.Front]
+	var cnf [][]int
+	for _, l := range c.P.Cons {
+		cnf = append(cnf, l.Lits)
+	}
+	n := c.P.N
+	want, ok := ref.CountCNF(cnf, n, 200_000_000, 5_000)
+	if !ok {
+		rec.Count("big_skipped_too_many_models", 1)
+		return
+	}
+	SetLearnedLimit(c.Limit, true)
+	rec.Count("big_cases", 1)
+	rec.Max("big_max_models", int(want))
+	scen := fmt.Sprintf("%s/big+CountModels/limit=%d", front, c.Limit)
+	if pb := c05Build(c, rec, scen); pb != nil {
+		var s *solver.Solver
+		count := -1
+		if !rec.Guard(scen, func() {
+			s = solver.New(pb)
+			count = s.CountModels()
+		}) {
+			rec.Count("count_calls", 1)
+			if uint64(count) != want {
+				rec.Viol(scen, "wrong-count", "CountModels", "CountModels returned %d, the counting DPLL finds %d models over %d variables", count, want, n)
+			}
+			rec.Count("big_conflicts", s.Stats.NbConflicts)
+			rec.Count("big_restarts", s.Stats.NbRestarts)
+			rec.Count("big_deleted", s.Stats.NbDeleted)
+			if s.Stats.NbRestarts > 0 {
+				rec.Count("big_cases_with_restart", 1)
+			}
+		}
+	}
+	scen = fmt.Sprintf("%s/big+Enumerate/limit=%d", front, c.Limit)
+	pb := c05Build(c, rec, scen)
+	if pb == nil {
+		return
+	}
+	ch := make(chan []bool, 256)
+	ret := -1
+	done := make(chan bool)
+	var s *solver.Solver
+	go func() {
+		done <- rec.Guard(scen, func() {
+			s = solver.New(pb)
+			ret = s.Enumerate(ch, nil)
+		})
+	}()
+	seen := map[string]bool{}
+	nbGot, dups, bad, badLen := 0, 0, 0, 0
+	for m := range ch {
+		nbGot++
+		if len(m) != n {
+			badLen++
+			continue
+		}
+		if i := ref.FirstFalsified(cnf, m); i >= 0 {
+			if bad == 0 {
+				rec.Viol(scen, "bad-model", "Enumerate", "delivered assignment #%d falsifies clause #%d %v", nbGot, i, cnf[i])
+			}
+			bad++
+		}
+		key := make([]byte, n)
+		for i, b := range m {
+			if b {
+				key[i] = 1
+			}
+		}
+		if seen[string(key)] {
+			dups++
+		}
+		seen[string(key)] = true
+	}
+	if <-done {
+		return
+	}
+	rec.Count("enumerate_calls", 1)
+	rec.Count("models_received", nbGot)
+	if badLen > 0 {
+		rec.Viol(scen, "model-length", "Enumerate", "%d delivered models do not have %d values", badLen, n)
+	}
+	if ret != nbGot {
+		rec.Viol(scen, "wrong-count", "Enumerate", "Enumerate returned %d but delivered %d models", ret, nbGot)
+	}
+	if dups > 0 {
+		rec.Viol(scen, "duplicate-model", "Enumerate", "%d models delivered more than once (%d delivered, %d expected)", dups, nbGot, want)
+	}
+	if bad == 0 && dups == 0 && badLen == 0 && uint64(nbGot) != want {
+		rec.Viol(scen, "wrong-count", "Enumerate", "%d distinct models delivered, the counting DPLL finds %d", nbGot, want)
+	}
+	if want >= 2 && s != nil && s.Stats.NbConflicts >= 50 {
+		rec.Interesting(JS(c.P.Cons) + c.Front)
+		rec.Count("with_2plus_models", 1)
+		rec.Count("big_enumerations_with_50plus_conflicts", 1)
+	}
+	if s != nil && s.Stats.NbRestarts > 0 {
+		rec.Count("big_enumerations_with_restart", 1)
+	}
+}
+
 func c05Run(ci interface{}, rec *Rec) {
 	c := ci.(*C05Case)
+	if c.Big {
+		c05RunBig(c, rec)
+		return
+	}
 	p := c.P
 	front := map[string]string{"slicenb": "ParseSliceNb", "dimacs": "ParseCNF", "card": "ParseCardConstrs", "pb": "ParsePBConstrs"}[c.Front]
 	SetLearnedLimit(c.Limit, true)
@@ -245,15 +365,15 @@ func init() {
 		New:      func() interface{} { return &C05Case{} },
 		Run:      c05Run,
 		Setup:    func(string) { InstallSeqHooks() },
-		Rule: "random problems over 1..11 declared variables: CNF through ParseSliceNb and ParseCNF (no constraint at all, few long clauses so that models need several decision levels, uniform, decided at parse time, partly unused variables), cardinality through ParseCardConstrs, PB through ParsePBConstrs; CountModels, Enumerate(channel) and Enumerate(nil) each on a fresh solver; the delivered multiset is compared with the truth-table model set. " +
+		Rule: "random problems over 1..11 declared variables: CNF through ParseSliceNb and ParseCNF (no constraint at all, few long clauses so that models need several decision levels, uniform, decided at parse time, partly unused variables), cardinality through ParseCardConstrs, PB through ParsePBConstrs; CountModels, Enumerate(channel) and Enumerate(nil) each on a fresh solver; the delivered multiset is compared with the truth-table model set. One case in 40 is a planted 3-SAT instance over 120..220 variables with at most 5000 models (hard enough for restarts and clause-database reductions to happen between two models): CountModels and Enumerate are compared with the counting DPLL of internal/ref, every delivered assignment is evaluated against the clauses and must be delivered once. " +
 			"non-trivial = >=2 models and the enumerating solver made >=3 decisions; distinct by (constraints, front-end)",
 		Assumptions: []string{
-			"reference truth table of internal/ref",
+			"reference truth table of internal/ref; counting DPLL of internal/ref for the large instances (self-tested against the truth table on 20000 small formulas, go test ./internal/ref)",
 			"the declared variables are Problem.NbVars as gophersat reports it; variables above it must be free in the reference problem (checked)",
 		},
 		Floors: map[string]map[string]int64{
-			"quick":    {"with_2plus_models": 5000, "models_received": 200000, "unsat": 500},
-			"thorough": {"with_2plus_models": 125000, "models_received": 5000000, "unsat": 12000},
+			"quick":    {"with_2plus_models": 5000, "models_received": 200000, "unsat": 500, "big_cases": 400},
+			"thorough": {"with_2plus_models": 125000, "models_received": 5000000, "unsat": 12000, "big_cases": 10000},
 		},
 	})
 }
